@@ -42,6 +42,8 @@ RelQueries == { Q("$", <<Child(SName(x_))>>), Q("$", <<Child(SName(y_))>>), Q("$
                 Q("$", <<Child(SName(b_)), Child(SIndex(1)), Child(SName(x_))>>), Q("$", <<Child(SName(z_))>>),
                 Q("$", <<Child(SName(<<233>>))>>), Q("$", <<Child(SName(y_)), Child(SIndex(-1))>>), Q("$", <<Child(SIndex(-1))>>), Q("$", <<Child(SIndex(-1)), Child(SName(x_))>>),
                 \* a negative start that reaches back past the first element is the first element; a negative index that does is nothing
+                \* member names selected below a member that is selected whole (only in the nested universe: the document is not modified)
+                Q("$", <<Child(SName(z_)), Child(SKeys)>>),
                 Q("$", <<Child(SName(y_)), Child(SSlice(<<-9>>, <<2>>, <<>>))>>), Q("$", <<Child(SName(y_)), Child(SIndex(-13))>>), Q("$", <<Child(SIndex(-4))>>) }
 
 Matches == Eval(mq, DocSeq[d])
@@ -63,7 +65,9 @@ Next == Select
 Spec == Init /\ [][Next]_vars /\ WF_vars(Next)
 Terminal == k = Len(rels)
 
-InUniverse == \A i \in 1..Len(Matches) : Admissible(sels[i]) /\ Ascending(sels[i])
+\* (the keys selector is not among the relative queries the property lists: it only takes part in the nested universe, for its last clause)
+HasKeys == \E r \in 1..Len(rels) : \E g \in 1..Len(rels[r].segs) : \E j \in 1..Len(rels[r].segs[g].sels) : rels[r].segs[g].sels[j].k = "keys"
+InUniverse == ~HasKeys /\ \A i \in 1..Len(Matches) : Admissible(sels[i]) /\ Ascending(sels[i])
 
 \* ---- properties ---------------------------------------------------------------------
 TwoFormulations == (Terminal /\ InUniverse) => \A i \in 1..Len(Matches) : sels[i] # <<>> => Build(sels[i]) = BuildByInsertion(sels[i])
@@ -87,6 +91,6 @@ Export == (Terminal /\ InUniverse) =>
 Nested == /\ \A i \in 1..Len(Matches) : Ascending(sels[i]) /\ \A j \in 1..Len(sels[i]) : sels[i][j].loc # <<>>
           /\ \E i \in 1..Len(Matches) : ~Admissible(sels[i])
 ExportNested == (Terminal /\ Nested) =>
-   PrintT(ToJson([nested |-> TRUE, doc |-> DocSeq[d], match |-> Render(mq, StdStyle), rels |-> [i \in 1..Len(rels) |-> Render(rels[i], [StdStyle EXCEPT !.rootless = (i % 2 = 0), !.uni = TRUE])],
+   PrintT(ToJson([nested |-> TRUE, haskeys |-> HasKeys, doc |-> DocSeq[d], match |-> Render(mq, StdStyle), rels |-> [i \in 1..Len(rels) |-> Render(rels[i], [StdStyle EXCEPT !.rootless = (i % 2 = 0), !.uni = TRUE])],
                   flat |-> Out("flat"), nsel |-> [i \in 1..Len(Matches) |-> Len(sels[i])]]))
 =============================================================================
